@@ -1631,3 +1631,100 @@ def r16m(ctx, rep, rule="R16m"):
             "%s and the predicates it calls never compare the scanned character with %s: the sign of an exponent ends the numeral or "
             "turns it into a symbol, so the literal 1e-7 is not the number (string->number \"1e-7\") is" % (
                 nm, " and ".join(repr(chr(x)) for x in (43, 45) if x not in seen)), [f.span])
+
+
+def r16q(ctx, rep, rule="R16q"):
+    """the library parsers are entered only with a numeral"""
+    from ..shapes import dominating_guards
+    facts, cg = ctx["facts"], ctx["cg"]
+    rep.rule(rule, "what string->number accepts is what a literal can spell: Number::parse tries i64, BigInt, BigRational and f64 "
+             "::from_str_radix in turn, and those accept more than numerals — num-bigint skips underscores (1_000), "
+             "BigRational takes a sign after the slash (1/-2), the float parsers take inf, nan, infinity and a point with no "
+             "digit (#x.) — none of which the scanner delivers as a number token. Every *::from_str_radix call in Number::parse, "
+             "and in the helpers only it calls, is therefore dominated by the true edge of a predicate of the number module "
+             "applied to the same text (the numeral check); (string->number \"1_000\") was 1000 and (string->number \"inf\") a "
+             "number while the literals are symbols.")
+    f = need(rep, rule, facts, "marwood::number::Number::parse")
+    if f is None:
+        return
+    scope = [f]
+    for bb, t in f.calls():
+        c = callee(t)
+        if c in facts.fns and c.startswith("marwood::number::") and cg.callers(c) <= {f.path} and \
+                any((callee(t2) or "").endswith("::from_str_radix") for _, t2 in facts.fns[c].calls()):
+            scope.append(facts.fns[c])
+    n = 0
+    guarded_entry = False
+    bad = []
+    for g in scope:
+        for bb, t in g.calls():
+            if not (callee(t) or "").endswith("::from_str_radix"):
+                continue
+            n += 1
+            ok = False
+            if g is f:
+                for sb, cond, taken, tt in dominating_guards(g, bb):
+                    o = g.origin(cond)
+                    if o[0] == "call" and (callee(o[1]) or "").startswith("marwood::number::") and taken != 0 and o[1]["args"]:
+                        a0 = g.origin(o[1]["args"][0])
+                        if a0[0] == "arg" and a0[1] == 1:
+                            ok = True
+                            guarded_entry = True
+            else:
+                ok = None   # decided below: the helper is entered from parse only
+            if ok is False:
+                bad.append(t["loc"])
+    # helpers: every call of them in parse must itself be guarded
+    for g in scope[1:]:
+        for bb, t in f.calls():
+            if callee(t) == g.path:
+                okc = False
+                for sb, cond, taken, tt in dominating_guards(f, bb):
+                    o = f.origin(cond)
+                    if o[0] == "call" and (callee(o[1]) or "").startswith("marwood::number::") and taken != 0 and o[1]["args"]:
+                        a0 = f.origin(o[1]["args"][0])
+                        if a0[0] == "arg" and a0[1] == 1:
+                            okc = True
+                if not okc:
+                    bad.append(t["loc"])
+    key = rule + "|Number::parse|numeral-check-first"
+    (rep.ok if not bad else rep.fail)(
+        rule, key, "all %d library parser calls of Number::parse lie behind the numeral check" % n if not bad else
+        "Number::parse hands the text to a library from_str_radix without a numeral check of its own in front: spellings the "
+        "scanner never delivers as a number (1_000, 1/-2, inf, nan, a bare point) are numbers for string->number", bad[:3])
+    rep.floor(rule, "library parser calls in Number::parse and its helpers", n, 4)
+
+
+def r16r(ctx, rep, rule="R16r"):
+    """a prefix touches its numeral"""
+    facts = ctx["facts"]
+    rep.rule(rule, "a prefix is part of the numeral: the scanner delivers #x, #e .. as tokens of their own and skips whitespace and "
+             "comments between tokens, so parse_number has to insist that the token it applies the prefix to begins where the "
+             "prefix ends — a comparison of the next token's span start with the prefix's span end inside the prefix loop, with "
+             "an error on the unequal edge. Otherwise `#x 10` and `(list #x ;c\\n 10)` are the number 16 in program text while "
+             "(string->number \"#x 10\") is #f.")
+    f = need(rep, rule, facts, "marwood::parse::parse_number")
+    if f is None:
+        return
+    body = set()
+    for src, h in f.back_edges():
+        body |= (f.reach_from(h) & f.reach_back(src)) | {h, src}
+    hits = []
+    for bb, j, st in f.stmts():
+        rv = st["rv"]
+        if bb in body and rv["k"] == "bin" and rv["op"] in ("Eq", "Ne") and rv.get("aty") == "usize":
+            def fld(op):
+                p_ = op_place(op)
+                o = f.origin(op)
+                names = [e.get("n") for e in (o[2] if len(o) > 2 else []) if isinstance(e, dict)]
+                if p_ is not None:
+                    names = names or [e.get("n") for e in p_["p"] if isinstance(e, dict)]
+                return names
+            na, nb = fld(rv["a"]), fld(rv["b"])
+            if ("span" in na or "span" in nb) and ("0" in na + nb) :
+                hits.append(st["loc"])
+    key = rule + "|parse_number|prefix-adjacent"
+    (rep.ok if hits else rep.fail)(
+        rule, key, "parse_number compares the start of the token after a prefix with the end of the prefix" if hits else
+        "parse_number takes whatever token follows a number prefix, however far away: whitespace and comments may stand between "
+        "#x and its digits in program text, which string->number does not accept", hits or [f.span])
